@@ -142,6 +142,8 @@ def tlc(scratch, module, cfg, workers="auto", extra=(), timeout=900, simulate=No
         shutil.copy(cfg, wd)
         cfg = os.path.basename(cfg)
     meta = os.path.join(wd, "meta")
+    if not jvm:
+        jvm = ("-Xmx12g",)
     cmd = ["java", "-XX:+UseParallelGC", "-Xss64m"] + list(jvm) + ["-cp", TLA_CP, "tlc2.TLC",
            "-noGenerateSpecTE", "-metadir", meta, "-config", cfg, "-workers", str(workers)]
     if simulate:
@@ -156,13 +158,23 @@ def tlc(scratch, module, cfg, workers="auto", extra=(), timeout=900, simulate=No
     e = dict(os.environ)
     e.update(env or {})
     t0 = time.time()
+    outp = os.path.join(wd, "tlc.out")
     try:
-        p = subprocess.run(["timeout", str(timeout)] + cmd, cwd=wd, env=e, stdout=subprocess.PIPE,
-                           stderr=subprocess.STDOUT, text=True)
+        with open(outp, "w") as fo:
+            p = subprocess.run(["timeout", str(timeout)] + cmd, cwd=wd, env=e, stdout=fo, stderr=subprocess.STDOUT)
     finally:
         shutil.rmtree(meta, ignore_errors=True)
-    out = p.stdout
-    r = {"rc": p.returncode, "out": out, "wall": time.time() - t0, "wd": wd, "timeout": p.returncode == 124}
+    # keep the printed payload lines out of the in-memory copy
+    keep = []
+    with open(outp, errors="replace") as fi:
+        for line in fi:
+            if line.startswith('<<"SCRIPT"') or line.startswith('<<"VEC"'):
+                continue
+            keep.append(line)
+    out = "".join(keep)
+    if len(out) > 400000:
+        out = out[:100000] + "\n...\n" + out[-300000:]
+    r = {"rc": p.returncode, "out": out, "outfile": outp, "wall": time.time() - t0, "wd": wd, "timeout": p.returncode == 124}
     m = re.findall(r"(\d+) states generated, (\d+) distinct states found, (\d+) states left on queue", out)
     if m:
         r["generated"], r["distinct"], r["queue"] = map(int, m[-1])
@@ -179,15 +191,23 @@ def tlc(scratch, module, cfg, workers="auto", extra=(), timeout=900, simulate=No
 
 
 def tlc_prints(out, tag):
-    """Collect values printed by PrintT(<<tag, json-string>>)."""
-    res = []
-    pat = re.compile(r'^<<"%s", "(.*)">>$' % re.escape(tag))
-    for l in out.split("\n"):
-        m = pat.match(l.strip())
-        if m:
-            s = m.group(1).replace('\\"', '"').replace("\\\\", "\\")
-            res.append(s)
-    return res
+    """Collect values printed by PrintT(<<tag, json-string>>) from a string."""
+    return list(_prints(out.split("\n"), tag))
+
+
+def tlc_file_prints(path, tag):
+    with open(path, errors="replace") as f:
+        for x in _prints(f, tag):
+            yield x
+
+
+def _prints(lines, tag):
+    pre = '<<"%s", "' % tag
+    for l in lines:
+        l = l.strip()
+        if l.startswith(pre) and l.endswith('">>'):
+            s = l[len(pre):-3]
+            yield s.replace('\\"', '"').replace("\\\\", "\\")
 
 
 # ------------------------------------------------------------------------------------------ evidence
